@@ -953,4 +953,328 @@ theorem stringifyList_spec (names : List Text) (N : Int) (b : Bool) (xs : List D
         | zero => simpa using hx
         | succ j => simpa using hel j (by simpa using hi) (by simpa using hj)
 
+/-! ### unit text reads back to the dimension vector -/
+
+/-- base-unit names: non-empty words of letters -/
+def GoodNames (names : List Text) : Prop := ∀ nm ∈ names, nm ≠ [] ∧ ∀ c ∈ nm, c.isAlpha = true
+
+/-- a text that is empty or starts with something that is not a letter -/
+def StopsAlpha (t : Text) : Prop := ∀ c r, t = c :: r → c.isAlpha = false
+
+theorem takeWhile_word {nm rest : Text} (h : ∀ c ∈ nm, c.isAlpha = true) (hr : StopsAlpha rest) :
+    (nm ++ rest).takeWhile Char.isAlpha = nm ∧ (nm ++ rest).dropWhile Char.isAlpha = rest := by
+  rw [List.takeWhile_append_of_pos h, List.dropWhile_append_of_pos h]
+  cases rest with
+  | nil => simp
+  | cons c r =>
+    have := hr c r rfl
+    simp [this]
+
+theorem unitParts_cons (nm : Text) (nms : List Text) (e : ℤ) (es : List ℤ) :
+    unitParts (nm :: nms) (e :: es) =
+      if e = 0 then unitParts nms es
+      else (if e = 1 then nm else nm ++ '^' :: intText e) :: unitParts nms es := by
+  unfold unitParts
+  simp only [List.zip_cons_cons, List.filterMap_cons]
+  by_cases h : e = 0 <;> simp [h]
+
+theorem unitParts_nil_left (dim : List ℤ) : unitParts [] dim = [] := by
+  unfold unitParts; simp
+
+theorem unitParts_nil_right (names : List Text) : unitParts names [] = [] := by
+  unfold unitParts; simp
+
+/-- every shown part starts with its (non-empty, alphabetic) unit name, which is one of `names` -/
+theorem unitParts_head {names : List Text} (hg : GoodNames names) (dim : List ℤ) :
+    ∀ p ∈ unitParts names dim, ∃ nm ∈ names, ∃ tail, p = nm ++ tail ∧ StopsAlpha tail := by
+  induction names generalizing dim with
+  | nil => intro p hp; rw [unitParts_nil_left] at hp; cases hp
+  | cons nm nms ih =>
+    cases dim with
+    | nil => intro p hp; rw [unitParts_nil_right] at hp; cases hp
+    | cons e es =>
+      have hg' : GoodNames nms := fun n hn => hg n (List.mem_cons_of_mem _ hn)
+      intro p hp
+      rw [unitParts_cons] at hp
+      by_cases he : e = 0
+      · rw [if_pos he] at hp
+        obtain ⟨n, hn, tl, h1, h2⟩ := ih hg' es p hp
+        exact ⟨n, List.mem_cons_of_mem _ hn, tl, h1, h2⟩
+      · rw [if_neg he] at hp
+        rcases List.mem_cons.mp hp with rfl | hp'
+        · refine ⟨nm, List.mem_cons_self .., ?_⟩
+          by_cases h1 : e = 1
+          · exact ⟨[], by simp [h1], by intro c r h; cases h⟩
+          · refine ⟨'^' :: intText e, by simp [h1], ?_⟩
+            intro c r h; injection h with hc _; rw [← hc]; decide
+        · obtain ⟨n, hn, tl, h1, h2⟩ := ih hg' es p hp'
+          exact ⟨n, List.mem_cons_of_mem _ hn, tl, h1, h2⟩
+
+theorem joinWith_cons_cons (sep t u : Text) (ts : List Text) :
+    joinWith sep (t :: u :: ts) = t ++ sep ++ joinWith sep (u :: ts) := rfl
+
+/-- the joined unit text is empty, or starts with one of the names as a whole word -/
+theorem joined_head {names : List Text} (ps : List Text)
+    (hps : ∀ p ∈ ps, ∃ nm ∈ names, ∃ tail, p = nm ++ tail ∧ StopsAlpha tail) :
+    (ps = [] ∧ joinWith [' '] ps = []) ∨
+    (∃ nm ∈ names, ∃ tail, joinWith [' '] ps = nm ++ tail ∧ StopsAlpha tail ∧ ps ≠ []) := by
+  cases ps with
+  | nil => exact Or.inl ⟨rfl, rfl⟩
+  | cons p ps =>
+    right
+    obtain ⟨nm, hn, tl, h1, h2⟩ := hps p (List.mem_cons_self ..)
+    cases ps with
+    | nil => exact ⟨nm, hn, tl, by simpa [joinWith] using h1, h2, by simp⟩
+    | cons u us =>
+      refine ⟨nm, hn, tl ++ [' '] ++ joinWith [' '] (u :: us), ?_, ?_, by simp⟩
+      · rw [joinWith_cons_cons, h1]; simp
+      · intro c r h
+        cases tl with
+        | nil => simp at h; rw [← h.1]; decide
+        | cons c' r' => simp at h; rw [← h.1]; exact h2 c' r' rfl
+
+theorem prettified_cons_ne (nm : Text) (nms : List Text) {e : ℤ} (es : List ℤ) (he : e ≠ 0) :
+    prettified (nm :: nms) (e :: es) =
+      joinWith [' '] ((if e = 1 then nm else nm ++ '^' :: intText e) :: unitParts nms es) := by
+  unfold prettified; rw [unitParts_cons, if_neg he]
+
+theorem prettified_def (nms : List Text) (es : List ℤ) :
+    prettified nms es = joinWith [' '] (unitParts nms es) := rfl
+
+theorem prettified_head {names : List Text} (hg : GoodNames names) (dim : List ℤ) :
+    (unitParts names dim = [] ∧ prettified names dim = []) ∨
+    (∃ nm ∈ names, ∃ tail, prettified names dim = nm ++ tail ∧ StopsAlpha tail ∧ unitParts names dim ≠ []) :=
+  joined_head _ (unitParts_head hg dim)
+
+theorem readIntPrefix_intText (e : ℤ) (rest : Text) (hr : Stops rest) :
+    readIntPrefix (intText e ++ rest) = some (e, rest) := by
+  unfold readIntPrefix
+  by_cases hn : e < 0
+  · rw [intText_neg hn, List.cons_append, splitSign_minus]
+    simp only
+    rw [readDigits_natText _ rest hr]
+    simp only [natText_length_ne_zero, if_false, if_true]
+    congr 2; omega
+  · rw [intText_nonneg (not_lt.mp hn), splitSign_natText]
+    simp only
+    rw [readDigits_natText _ rest hr]
+    simp only [natText_length_ne_zero, if_false, Bool.false_eq_true]
+    congr 2; omega
+
+theorem readDim_prettified (names : List Text) (hg : GoodNames names) (hnd : names.Nodup)
+    (dim : List ℤ) (hlen : dim.length = names.length) :
+    readDim names (prettified names dim) = some dim := by
+  induction names generalizing dim with
+  | nil =>
+    cases dim with
+    | nil => rfl
+    | cons e es => simp at hlen
+  | cons nm nms ih =>
+    cases dim with
+    | nil => simp at hlen
+    | cons e es =>
+      have hg' : GoodNames nms := fun n hn => hg n (List.mem_cons_of_mem _ hn)
+      have hnd' : nms.Nodup := (List.nodup_cons.mp hnd).2
+      have hnotin : nm ∉ nms := (List.nodup_cons.mp hnd).1
+      have hlen' : es.length = nms.length := by simpa using hlen
+      have IH := ih hg' hnd' es hlen'
+      have hnm := hg nm (List.mem_cons_self ..)
+      have hU := prettified_head hg' es
+      by_cases he : e = 0
+      · -- the unit is absent: the text is the text of the rest
+        have hp : prettified (nm :: nms) (e :: es) = prettified nms es := by
+          unfold prettified; rw [unitParts_cons, if_pos he]
+        rw [hp]
+        have hw : ¬ ((prettified nms es).takeWhile Char.isAlpha = nm ∧
+            (prettified nms es).takeWhile Char.isAlpha ≠ []) := by
+          rintro ⟨h1, h2⟩
+          rcases hU with ⟨_, h0⟩ | ⟨n, hn, tl, h3, h4, _⟩
+          · rw [h0] at h2; simp at h2
+          · rw [h3, (takeWhile_word (hg' n hn).2 h4).1] at h1
+            exact hnotin (h1 ▸ hn)
+        unfold readDim
+        simp only [hw, if_false, IH, Option.map_some, he]
+      · -- the unit is shown
+        -- the text after the item: nothing, or a space and the (non-empty) rest
+        have hsplit : ∃ tail, prettified (nm :: nms) (e :: es) =
+              (if e = 1 then nm else nm ++ '^' :: intText e) ++ tail ∧
+            ((tail = [] ∧ prettified nms es = []) ∨
+             (∃ c cs, tail = ' ' :: c :: cs ∧ prettified nms es = c :: cs)) := by
+          rw [prettified_cons_ne nm nms es he]
+          rcases hU with ⟨h0, h1⟩ | ⟨n, hn, tl, h3, h4, h5⟩
+          · refine ⟨[], ?_, Or.inl ⟨rfl, h1⟩⟩
+            rw [h0]; simp [joinWith]
+          · obtain ⟨u, us, hus⟩ := List.exists_cons_of_ne_nil h5
+            have hne : n ≠ [] := (hg' n hn).1
+            obtain ⟨c, cs, hc⟩ := List.exists_cons_of_ne_nil hne
+            refine ⟨' ' :: prettified nms es, ?_, Or.inr ⟨c, cs ++ tl, ?_, ?_⟩⟩
+            · rw [hus, joinWith_cons_cons, prettified_def, hus]; simp
+            · rw [h3, hc]; simp
+            · rw [h3, hc]; simp
+        obtain ⟨tail, htext, htail⟩ := hsplit
+        have hstop : Stops tail := by
+          rcases htail with ⟨h, _⟩ | ⟨c, cs, h, _⟩
+          · rw [h]; exact stops_nil
+          · rw [h]; exact stops_cons (by decide)
+        have hstopA : StopsAlpha tail := by
+          rcases htail with ⟨h, _⟩ | ⟨c, cs, h, _⟩
+          · rw [h]; intro c r hh; cases hh
+          · rw [h]; intro c' r hh; injection hh with h1 _; rw [← h1]; decide
+        -- what follows the name
+        have hword : (prettified (nm :: nms) (e :: es)).takeWhile Char.isAlpha = nm ∧
+            (prettified (nm :: nms) (e :: es)).dropWhile Char.isAlpha =
+              (if e = 1 then tail else '^' :: (intText e ++ tail)) := by
+          rw [htext]
+          by_cases h1 : e = 1
+          · simp only [h1, if_true]
+            exact takeWhile_word hnm.2 hstopA
+          · simp only [h1, if_false]
+            have : nm ++ '^' :: intText e ++ tail = nm ++ ('^' :: (intText e ++ tail)) := by simp
+            rw [this]
+            exact takeWhile_word hnm.2 (by intro c r hh; injection hh with h2 _; rw [← h2]; decide)
+        have hcont : skipSpace tail = some (prettified nms es) := by
+          rcases htail with ⟨h, h0⟩ | ⟨c, cs, h, h0⟩
+          · rw [h, h0]; rfl
+          · rw [h, h0]; rfl
+        unfold readDim
+        simp only [hword.1, hword.2, hnm.1, ne_eq, not_false_eq_true, and_self, if_true]
+        by_cases h1 : e = 1
+        · simp only [h1, if_true]
+          have hnc : ∀ r', tail ≠ '^' :: r' := by
+            intro r' hh
+            rcases htail with ⟨h, _⟩ | ⟨c, cs, h, _⟩
+            · rw [h] at hh; cases hh
+            · rw [h] at hh; injection hh with h2 _; revert h2; decide
+          have : readUnitExp tail = some (1, tail) := by
+            unfold readUnitExp
+            split
+            · exact absurd rfl (hnc _)
+            · rfl
+          rw [this]
+          simp only [one_ne_zero, if_false, hcont, IH, Option.map_some]
+        · have : readUnitExp ('^' :: (intText e ++ tail)) = some (e, tail) := by
+            show readIntPrefix (intText e ++ tail) = some (e, tail)
+            exact readIntPrefix_intText e tail hstop
+          simp only [h1, if_false, this, he, hcont, IH, Option.map_some]
+
+/-! ### at most `P` significant digits are shown -/
+
+/-- the digit characters of the mantissa part (before any `e`) -/
+def mantissaDigits (t : Text) : Text := (t.takeWhile (· ≠ 'e')).filter Char.isDigit
+
+theorem sigCount_eq (t : Text) : sigCount t = ((mantissaDigits t).dropWhile (· = '0')).length := rfl
+
+theorem mantissaDigits_nil : mantissaDigits [] = [] := rfl
+
+theorem mantissaDigits_e (r : Text) : mantissaDigits ('e' :: r) = [] := by
+  simp [mantissaDigits]
+
+theorem mantissaDigits_append {a : Text} (b : Text) (h : ∀ c ∈ a, c ≠ 'e') :
+    mantissaDigits (a ++ b) = a.filter Char.isDigit ++ mantissaDigits b := by
+  unfold mantissaDigits
+  rw [List.takeWhile_append_of_pos (by intro c hc; simpa using h c hc), List.filter_append]
+
+theorem filter_allDigits {ds : Text} (h : AllDigits ds) : ds.filter Char.isDigit = ds :=
+  List.filter_eq_self.mpr h
+
+theorem allDigits_ne_e {ds : Text} (h : AllDigits ds) : ∀ c ∈ ds, c ≠ 'e' := by
+  intro c hc he; have := h c hc; rw [he] at this; revert this; decide
+
+theorem mantissaDigits_digits {ds : Text} (h : AllDigits ds) (b : Text) :
+    mantissaDigits (ds ++ b) = ds ++ mantissaDigits b := by
+  rw [mantissaDigits_append b (allDigits_ne_e h), filter_allDigits h]
+
+theorem mantissaDigits_dot (b : Text) : mantissaDigits ('.' :: b) = mantissaDigits b := by
+  have := mantissaDigits_append (a := ['.']) b (by intro c hc; rw [List.mem_singleton.mp hc]; decide)
+  simpa using this
+
+theorem mantissaDigits_minus (b : Text) : mantissaDigits ('-' :: b) = mantissaDigits b := by
+  have := mantissaDigits_append (a := ['-']) b (by intro c hc; rw [List.mem_singleton.mp hc]; decide)
+  simpa using this
+
+theorem mantissaDigits_expText (e : ℤ) : mantissaDigits (expText e) = [] := mantissaDigits_e _
+
+theorem dropWhile_length_le (p : Char → Bool) (l : Text) : (l.dropWhile p).length ≤ l.length := by
+  induction l with
+  | nil => simp
+  | cons c cs ih =>
+    rw [List.dropWhile_cons]; split
+    · simp; omega
+    · simp
+
+theorem dropWhile_zero_replicate (n : ℕ) (l : Text) :
+    (List.replicate n '0' ++ l).dropWhile (· = '0') = l.dropWhile (· = '0') := by
+  induction n with
+  | zero => simp
+  | succ n ih => simp [List.replicate_succ, ih]
+
+theorem sigCount_layoutG {P : ℕ} {ds : Text} (hne : ds ≠ []) (h : AllDigits ds) (hlen : ds.length ≤ P) (e : ℤ) :
+    sigCount (layoutG P ds e) ≤ P := by
+  rw [sigCount_eq]
+  unfold layoutG
+  split
+  · -- exponent notation
+    refine le_trans (dropWhile_length_le _ _) ?_
+    match ds, hne, h, hlen with
+    | [d], _, h, hlen =>
+      have : layoutExp [d] e = [d] ++ expText e := rfl
+      rw [this, mantissaDigits_digits h, mantissaDigits_expText]; simpa using hlen
+    | d :: r :: rs, _, h, hlen =>
+      have : layoutExp (d :: r :: rs) e = [d] ++ '.' :: ((r :: rs) ++ expText e) := rfl
+      have h' := allDigits_cons.mp h
+      have hd : AllDigits [d] := allDigits_cons.mpr ⟨h'.1, by intro c hc; cases hc⟩
+      rw [this, mantissaDigits_digits hd, mantissaDigits_dot, mantissaDigits_digits h'.2, mantissaDigits_expText]
+      simpa using hlen
+  · rename_i hcond
+    have hcond' : ¬ e < -4 ∧ ¬ e ≥ (P : ℤ) := not_or.mp hcond
+    unfold layoutFixed
+    by_cases he : e ≥ 0
+    · simp only [he, if_true]
+      by_cases hl : ds.length ≤ e.toNat + 1
+      · simp only [hl, if_true]
+        refine le_trans (dropWhile_length_le _ _) ?_
+        have hAll : AllDigits (ds ++ List.replicate (e.toNat + 1 - ds.length) '0') :=
+          allDigits_append h (allDigits_replicate_zero _)
+        have := mantissaDigits_digits hAll []
+        rw [List.append_nil, mantissaDigits_nil, List.append_nil] at this
+        rw [this, List.length_append, List.length_replicate]
+        omega
+      · simp only [hl, if_false]
+        refine le_trans (dropWhile_length_le _ _) ?_
+        have hAt : AllDigits (ds.take (e.toNat + 1)) := fun c hc => h c (List.mem_of_mem_take hc)
+        have hAd : AllDigits (ds.drop (e.toNat + 1)) := fun c hc => h c (List.mem_of_mem_drop hc)
+        have hd := mantissaDigits_digits hAd []
+        rw [List.append_nil, mantissaDigits_nil, List.append_nil] at hd
+        rw [mantissaDigits_digits hAt, mantissaDigits_dot, hd, List.take_append_drop]
+        exact hlen
+    · simp only [he, if_false]
+      have hAll : AllDigits (List.replicate ((-e).toNat - 1) '0' ++ ds) :=
+        allDigits_append (allDigits_replicate_zero _) h
+      have hz : AllDigits ['0'] := allDigits_cons.mpr ⟨by decide, by intro c hc; cases hc⟩
+      have hd := mantissaDigits_digits hAll []
+      rw [List.append_nil, mantissaDigits_nil, List.append_nil] at hd
+      have e1 : '0' :: '.' :: (List.replicate ((-e).toNat - 1) '0' ++ ds)
+          = ['0'] ++ '.' :: (List.replicate ((-e).toNat - 1) '0' ++ ds) := rfl
+      rw [e1, mantissaDigits_digits hz, mantissaDigits_dot, hd]
+      have : (['0'] ++ (List.replicate ((-e).toNat - 1) '0' ++ ds)) =
+          List.replicate ((-e).toNat - 1 + 1) '0' ++ ds := by
+        rw [List.replicate_succ]; simp
+      rw [this, dropWhile_zero_replicate]
+      exact le_trans (dropWhile_length_le _ _) hlen
+
+theorem sigCount_fmtRat {P : ℕ} (hP : 1 ≤ P) {q : ℚ} (hq : q ≠ 0) : sigCount (fmtRat P q) ≤ P := by
+  unfold fmtRat
+  simp only [hq, if_false]
+  by_cases hn : q < 0
+  · simp only [hn, if_true]
+    have hpos : 0 < -q := by linarith
+    obtain ⟨hne, hall, hlen, _⟩ := shown_digits hP hpos
+    rw [sigCount_eq, mantissaDigits_minus, ← sigCount_eq, fmtPos_eq]
+    exact sigCount_layoutG hne hall hlen _
+  · simp only [hn, if_false]
+    have hpos : 0 < q := lt_of_le_of_ne (not_lt.mp hn) (Ne.symm hq)
+    obtain ⟨hne, hall, hlen, _⟩ := shown_digits hP hpos
+    rw [fmtPos_eq]
+    exact sigCount_layoutG hne hall hlen _
+
 end KaVerif.Display
